@@ -277,6 +277,28 @@ def b2_b3_shapes(run: Run, prog: Program, cy: CyProgram, cfuncs, sites, handoffs
                 # square arrays: one extent serves every axis
                 one = [a for a in axes if a][0]
                 axes = [a or one for a in axes]
+            if any(a_ is None for a_ in axes):
+                # an explicit guard `if X.shape != (e0, e1): raise` before the
+                # call ties every axis of X to the extent passed as e_k
+                for st in ast.walk(f.node):
+                    if not (isinstance(st, ast.If) and st.lineno < s.call.lineno and
+                            any(isinstance(x, ast.Raise) for x in st.body)):
+                        continue
+                    for c in ast.walk(st.test):
+                        if isinstance(c, ast.Compare) and len(c.ops) == 1 and \
+                                isinstance(c.ops[0], ast.NotEq) and \
+                                isinstance(c.left, ast.Attribute) and \
+                                c.left.attr == "shape" and \
+                                ast.unparse(c.left.value) == bsrc and \
+                                isinstance(c.comparators[0], ast.Tuple) and \
+                                len(c.comparators[0].elts) == pt.ndim:
+                            for ax, ex in enumerate(c.comparators[0].elts):
+                                for (qn, qt) in k.args:
+                                    v = argmap.get(qn)
+                                    if qt.kind == "simple" and v is not None and \
+                                            ast.unparse(v) == ast.unparse(ex) and \
+                                            axes[ax] is None:
+                                        axes[ax] = qn
             key = (k.name, pn)
             contracts.setdefault(key, []).append((s, axes, bsrc))
     _b4_state_freshness(run, prog, state_ties)
@@ -624,6 +646,13 @@ def _attr_shape(prog: Program, f, expr) -> list | None:
     np.linalg.pinv / np.diag / sum / binary arithmetic."""
     cls = f.cls
 
+    def dim_src(x, ctx):
+        # an extent held in a local stands for what it was bound to
+        if ctx is not None:
+            from .idioms import inline_locals
+            x = inline_locals(ctx, x)
+        return ast.unparse(x)
+
     def shape(e, depth=0, ctx=None):
         if depth > 20 or e is None:
             return None
@@ -636,7 +665,7 @@ def _attr_shape(prog: Program, f, expr) -> list | None:
                     and e.args:
                 a = e.args[0]
                 if isinstance(a, ast.Tuple):
-                    return [ast.unparse(x) for x in a.elts]
+                    return [dim_src(x, ctx) for x in a.elts]
                 return shape(a, depth + 1, ctx)
             if fn in ("np.linalg.pinv", "np.linalg.inv"):
                 sh = shape(e.args[0], depth + 1, ctx)
@@ -652,7 +681,7 @@ def _attr_shape(prog: Program, f, expr) -> list | None:
             if fn in ("np.zeros", "np.ones", "np.empty") and e.args:
                 a = e.args[0]
                 if isinstance(a, ast.Tuple):
-                    return [ast.unparse(x) for x in a.elts]
+                    return [dim_src(x, ctx) for x in a.elts]
                 return None
             if fn == "to_cy" and e.args:
                 return shape(e.args[0], depth + 1, ctx)
@@ -1036,6 +1065,19 @@ def _defs_through_helpers(cf, fvar, it: CInterp, depth=0):
             if hf is cf or len(hf.params) != len(s.a[1]):
                 continue
             mp = {pn: a for (pn, _), a in zip(hf.params, s.a[1])}
+            # pointer locals of the helper that walk one of its pointer
+            # parameters (`p = data + off`) stand for that parameter
+            ptr_params = {pn for pn, pt in hf.params if is_ptr_type(pt)}
+            loc = {}
+            for st_ in walk(hf.body):
+                if isinstance(st_, X) and st_.k == "assign" and len(st_.a[0]) == 1 and \
+                        st_.a[0][0].k == "name" and st_.a[0][0].a[0] not in mp:
+                    roots_ = names_in(st_.a[1]) & ptr_params
+                    if len(roots_) == 1:
+                        loc.setdefault(st_.a[0][0].a[0], set()).add(next(iter(roots_)))
+            for ln_, roots_ in loc.items():
+                if len(roots_) == 1:
+                    mp[ln_] = mp[next(iter(roots_))]
             for e in _defs_through_helpers(hf, fvar, it, depth + 1):
                 out.append(_subst_x(e, mp))
     return out
